@@ -153,7 +153,7 @@ func (a v16Auth) Authenticate(addr net.Addr, auth string, tx uint64) (bool, stri
 	}
 	e.auths = append(e.auths, auth)
 	e.logfLocked("server: authenticated %q", auth)
-	return true, "u"
+	return true, auth // the id names the configuration evaluation: Disconnect events can be attributed
 }
 
 // v16TL is the TrafficLogger through which the harness makes the *server* close
@@ -171,6 +171,28 @@ func (l v16TL) LogTraffic(id string, tx, rx uint64) bool {
 func (l v16TL) LogOnlineState(id string, online bool)                         {}
 func (l v16TL) TraceStream(stream server.HyStream, stats *server.StreamStats) {}
 func (l v16TL) UntraceStream(stream server.HyStream)                          {}
+
+// v16EL records why the server saw each authenticated connection end. This is
+// the harness's independent evidence about the health of a connection: a
+// connection whose end the server observed as "the peer closed it with the
+// client's normal close code 0x100" was alive and reachable until the client's
+// own Close() — it was not lost.
+type v16EL struct{ e *v16Env }
+
+func (l v16EL) Connect(addr net.Addr, id string, tx uint64) {}
+func (l v16EL) Disconnect(addr net.Addr, id string, err error) {
+	l.e.mu.Lock()
+	if l.e.disconnects == nil {
+		l.e.disconnects = map[string]error{}
+	}
+	l.e.disconnects[id] = err
+	l.e.logfLocked("server: connection %q ended: %s", id, v16ErrStr(err))
+	l.e.mu.Unlock()
+}
+func (l v16EL) TCPRequest(addr net.Addr, id, reqAddr string)                          {}
+func (l v16EL) TCPError(addr net.Addr, id, reqAddr string, err error)                 {}
+func (l v16EL) UDPRequest(addr net.Addr, id string, sessionID uint32, reqAddr string) {}
+func (l v16EL) UDPError(addr net.Addr, id string, sessionID uint32, err error)        {}
 
 type v16Srv struct {
 	s    server.Server
@@ -280,9 +302,10 @@ type v16Env struct {
 	log []string
 
 	srv          *v16Srv
-	srvAddr      *net.UDPAddr // address configFunc hands out (current or last server address)
-	auths        []string     // accepted Auth strings, in order
-	authRej      int          // reject the next k authentications
+	srvAddr      *net.UDPAddr     // address configFunc hands out (current or last server address)
+	auths        []string         // accepted Auth strings, in order
+	disconnects  map[string]error // server side: why the connection authenticated as <id> ended
+	authRej      int              // reject the next k authentications
 	authRejected int
 	kick         atomic.Bool
 	kicked       atomic.Int32
@@ -377,6 +400,7 @@ func (e *v16Env) startServer(port int) (gotWanted bool) {
 		Outbound:      v16Outbound{},
 		Authenticator: v16Auth{e},
 		TrafficLogger: v16TL{e},
+		EventLogger:   v16EL{e},
 	})
 	if err != nil {
 		vInconclusive("C16: cannot create the server: " + err.Error())
@@ -531,7 +555,11 @@ type v16CallRes struct {
 
 // v16Invoke runs one TCP()/UDP() call of the client. A call may legitimately
 // block for the QUIC idle / handshake timeout; far beyond that is "cannot decide".
-func v16Invoke(c Client, kind string) v16CallRes {
+func v16Invoke(c Client, kind string) v16CallRes { return v16InvokeEx(c, kind, 0, nil) }
+
+// v16InvokeEx: if the call is still blocked after `after` (> 0), onBlock runs once
+// (the harness frees a stream slot for a patient implementation) and the wait goes on.
+func v16InvokeEx(c Client, kind string, after time.Duration, onBlock func()) v16CallRes {
 	ch := make(chan v16CallRes, 1)
 	go func() {
 		var r v16CallRes
@@ -542,6 +570,14 @@ func v16Invoke(c Client, kind string) v16CallRes {
 		}
 		ch <- r
 	}()
+	if after > 0 && onBlock != nil {
+		select {
+		case r := <-ch:
+			return r
+		case <-time.After(after):
+			onBlock()
+		}
+	}
 	select {
 	case r := <-ch:
 		return r
@@ -549,6 +585,37 @@ func v16Invoke(c Client, kind string) v16CallRes {
 		vInconclusive(fmt.Sprintf("C16: a %s call did not return within %v", kind, v16CallWatchdog))
 	}
 	panic("unreachable")
+}
+
+// v16ClientTornDownHealthy decides, from the server's point of view, whether the
+// connection authenticated as id was alive until the client itself closed it:
+// the server then sees a CONNECTION_CLOSE from the peer carrying the client's
+// normal close code 0x100. A connection that was really lost (idle timeout,
+// dead socket, server-side close) never ends like that: a client closing an
+// already dead connection sends nothing. Waits generously for the server to notice.
+func (e *v16Env) clientTornDownHealthy(id string) (bool, string) {
+	deadline := time.Now().Add(10 * time.Second)
+	for {
+		e.mu.Lock()
+		err, ok := e.disconnects[id]
+		e.mu.Unlock()
+		if ok {
+			// The server reports the result of http3's ServeQUICConn: nil exactly when
+			// the connection ended with application error 0x100 (H3 "no error"). The
+			// server itself closes with 0x100 only after that returned, a kick uses
+			// 0x107, server shutdown / idle timeout / dead peer give other errors: so
+			// nil means the client sent CONNECTION_CLOSE(0x100) on a working connection.
+			var ae *quic.ApplicationError
+			if err == nil || (errors.As(err, &ae) && ae.Remote && ae.ErrorCode == 0x100) {
+				return true, "peer closed with application code 0x100 (Disconnect err=" + v16ErrStr(err) + ")"
+			}
+			return false, v16ErrStr(err)
+		}
+		if time.Now().After(deadline) {
+			return false, "server reported no end of the connection within 10 s"
+		}
+		time.Sleep(5 * time.Millisecond)
+	}
 }
 
 // v16Echo writes a few bytes and expects them back (evidence that the
